@@ -16,13 +16,17 @@ REAL_E4 = dict(real=["etcd/server/storage/wal (create/save/cut/open/readall/repa
                      "etcd/server/etcdserver/api/snap (Snapshotter)", "etcd/client/pkg/fileutil", "etcd/pkg/ioutil PageWriter",
                      "tmpfs files"],
                stubbed=["durability: shadow durable image fed by the Fsync/Fdatasync hook; crash image = durable bytes "
-                        "plus a seeded subset of unsynced 512-byte sectors"])
+                        "plus a seeded subset of unsynced 512-byte sectors; the lost tail of a file that grew past its durable "
+                        "length is zero-filled or missing (tape choice); crash points: before/after every sync, between operations, "
+                        "and after every write the page writer hands to the file (page-writer hook)"])
 
 REAL_E1 = dict(real=["server.Manager.Handle connection loop", "resp.ParseStream parser goroutine", "memdb executors, data structures, TTL timer goroutines",
                      "memdb lock discipline (dblock/concurrentmap/pubsub/stream) with sync replaced by the cooperative vsync at build time",
                      "util (hash, glob)"],
-               stubbed=["TCP accept loop and sockets (simconn implements net.Conn)", "wall clock (testing/synctest fake clock)",
-                        "goroutine scheduling at lock operations (seeded cooperative scheduler)",
+               stubbed=["TCP accept loop and sockets (simconn implements net.Conn; C20's sweep phase runs the real accept loop of server.Start)",
+                        "wall clock (testing/synctest fake clock)",
+                        "goroutine scheduling at lock operations, at connection reads/writes and between computing and serialising a reply "
+                        "(seeded cooperative scheduler; a writer's Lock call ahead of later readers is an explicit event)",
                         "blocking-pop poll period 100ms -> 100ms+1ns (overlay) so that tick and timeout never tie"])
 
 PROPS = {
@@ -76,7 +80,8 @@ PROPS = {
              "sector set / corrupted offset)",
         state_measure="hash of (recovered hard state, recovered entry count, repair used, error class)",
         components=REAL_E4,
-        assumptions=["sector-atomic storage: a 512-byte sector is either old or new", "directory operations are atomic and durable",
+        assumptions=["sector-atomic storage: a 512-byte sector is either old or new; a file that grew since its last sync may come back "
+                     "with its old length or zero-filled", "directory operations are atomic and durable",
                      "durability obligation derived from the Raft persistence contract (entries, term, vote), not from observed syncs"],
         quick=dict(wall=40), thorough=dict(wall=900),
     ),
